@@ -52,6 +52,8 @@ ASSUMPTIONS = [
     "the module-level name eval seen by atomica.utils is replaced by a recorder while the harness calls it",
 ]
 BUDGET = {"quick": 96000, "thorough": 4800000}
+if os.environ.get("C19_BUDGET_SCALE"):  # smoke-testing the thorough plumbing with a fraction of the budget
+    BUDGET = {k: max(16, int(v * float(os.environ["C19_BUDGET_SCALE"]))) for k, v in BUDGET.items()}
 TIME_CAP = {"quick": 35, "thorough": 1100}
 TOL = 1e-12
 ATHERIS_SECONDS = int(os.environ.get("C19_ATHERIS_SECONDS", "420"))
